@@ -353,6 +353,123 @@ def trace_tie(ctx, targets):
     return mism
 
 
+# ---------------------------------------------------------------- T-trace-kernel
+
+# Per family: (kind, dims).  The Go recorder's trace of each target is turned into a Lean term
+# (tools/trace2lean.py), the kernel decides its equality with the trace of the proved model, and the
+# generic lemmas of Smtb/Properties/GoTrace.lean are instantiated at the regenerated term.
+KERNEL_FAMILIES = {
+    'Ins': [('circuit-ins', (3, 2)), ('circuit-ins', (30, 4)), ('proof-ins', (3, 2))],
+    'Del': [('circuit-del', (3, 2)), ('circuit-del', (30, 4)), ('proof-del', (3, 2))],
+    'Bits': [('trbe', (251, 8)), ('trbe', (65521, 16))],
+    # C17: the text is not the Go recorder's but the flattening (tools/flatten_extraction.py, hash
+    # gadgets kept as call lines) of the model COMMITTED under /repo/formal-verification
+    'Extract': [('extract-ins', (30, 4)), ('extract-del', (30, 4))],
+}
+EXTRACT_DEFS = {'extract-ins': 'InsertionMbuCircuit_4_30_4_4_30', 'extract-del': 'DeletionMbuCircuit_4_4_30_4_4_30'}
+
+
+def _kernel_target(kind, dims):
+    """-> (trace args, Lean name, Lean model trace expr, names expr, lemma instantiation maker)"""
+    R = str(BN254)
+    if kind in ('circuit-ins', 'circuit-del', 'extract-ins', 'extract-del'):
+        d, b = dims
+        circ, fn, lemma, bound = (('Insertion', 'traceInsertion', 'insertion_circuit_meaning', 32) if kind.endswith('-ins')
+                                  else ('Deletion', 'traceDeletion', 'deletion_circuit_meaning', 31))
+        name = f'go{circ}_{d}_{b}' if kind.startswith('circuit') else f'extracted{circ}_{d}_{b}'
+        return (['--opaque=Poseidon2,KeccakGadget', circ, R, str(d), str(b)], name,
+                f'traceOf ["Poseidon2", "KeccakGadget"] ({fn} Smtb.Properties.C03.r {d} {b})', None,
+                lambda res: f'def {name}_meaning := {lemma} {d} {b} (by decide) {name} {name}_eq')
+    if kind in ('proof-ins', 'proof-del'):
+        d, b = dims
+        g, fn, lemma, e = (('InsertionProof', 'traceInsertionProof', 'insertionProof_meaning', d) if kind == 'proof-ins'
+                           else ('DeletionProof', 'traceDeletionProof', 'deletionProof_meaning', d + 1))
+        name = f'go{g}_{d}_{b}'
+        prog = f'({fn} {d} {b})'
+        return (['--opaque=Poseidon2', g, str(d), str(b)], name, f'traceOf ["Poseidon2"] {prog}', f'resultOf ["Poseidon2"] {prog}',
+                lambda res: (f'def {name}_meaning {{p : ℕ}} [Fact p.Prime] (hd : 2 ^ {e} ≤ p) :=\n'
+                             f'  {lemma} (p := p) {d} {b} hd {name} ({res[0]}) {name}_eq (by decide +kernel)'))
+    if kind == 'trbe':
+        P, n = dims
+        name = f'goToReducedBigEndian_{P}_{n}'
+        prog = f'(traceToReducedBigEndian {P} {n})'
+        return (['ToReducedBigEndian', str(P), str(n)], name, f'traceOf ["Poseidon2"] {prog}', f'resultOf ["Poseidon2"] {prog}',
+                lambda res: (f'def {name}_meaning :=\n  toReducedBigEndian_meaning (p := {P}) {n} {name} [{", ".join(res)}] {name}_eq (by decide +kernel)'))
+    raise ValueError(kind)
+
+
+def kernel_trace_tie(ctx, family, kinds=None):
+    """T-trace-kernel for one family.  Returns a list of mismatches (dicts).  A target whose Go
+    trace text differs from the model's is left to the text/DAG tie (trace_tie) and skipped here, so
+    that this tie never raises an alarm of its own on a reordering the DAG tie accepts."""
+    import importlib.util
+    spec = importlib.util.spec_from_file_location('trace2lean', os.path.join(ROOT, 'tools', 'trace2lean.py'))
+    t2l = importlib.util.module_from_spec(spec); spec.loader.exec_module(t2l)
+    mod = f'GoTrace{family}'
+    body, audit_names, included, skipped = [], [], [], []
+    for kind, dims in KERNEL_FAMILIES[family]:
+        if kinds and kind not in kinds:
+            continue
+        args, name, model_expr, res_expr, inst = _kernel_target(kind, dims)
+        if kind in EXTRACT_DEFS:
+            a = run([DRIVER, 'trace'] + args, env=dict(os.environ))
+            b = run(['python3', os.path.join(ROOT, 'tools', 'flatten_extraction.py'), '--opaque=Poseidon2,KeccakGadget',
+                     os.path.join(REPO, 'formal-verification', 'FormalVerification.lean'), EXTRACT_DEFS[kind]], env=dict(os.environ))
+        else:
+            a, b = trace_pair(args)
+        label = ('flatten(committed model) ' if kind in EXTRACT_DEFS else '') + ' '.join(a for a in args if not a.startswith('--')).replace(str(BN254), 'r')
+        if a.returncode != 0 or b.returncode != 0 or a.stdout != b.stdout:
+            skipped.append(label)
+            ctx.oblige(f'T-trace-kernel {label}', True, 'skipped: the recorded text differs from the model (decided by the text/DAG tie T-trace and the behavioural search)')
+            continue
+        lines = b.stdout.split('\n')
+        if lines and lines[-1] == '':
+            lines.pop()
+        res = []
+        if res_expr:
+            ret = [l for l in lines if l.startswith('ret')]
+            res = [t2l.tv(t) for t in ret[-1].split(' ')[1:]] if ret else []
+        chunks = [lines[i:i + t2l.CHUNK] for i in range(0, len(lines), t2l.CHUNK)] or [[]]
+        for i, ch in enumerate(chunks):
+            body.append(f'def {name}_{i} : List TLine := [\n' + ',\n'.join('  ' + t2l.line(l) for l in ch) + ']')
+        body.append((f'/-- the committed extracted model `{EXTRACT_DEFS[kind]}`, flattened (hash gadgets as call lines), {len(lines)} lines -/' if kind in EXTRACT_DEFS else
+                     f'/-- the constraint list recorded from the Go code (`trace {" ".join(args)[:80]}`), {len(lines)} lines -/'))
+        body.append(f'def {name} : List TLine := ' + ' ++ '.join(f'{name}_{i}' for i in range(len(chunks))))
+        body.append(f'/-- decided by the kernel: the recorded list IS the trace of the proved Lean program -/')
+        body.append(f'theorem {name}_eq : {model_expr} = {name} := by decide +kernel')
+        body.append(inst(res))
+        audit_names += [f'Smtb.Gen.{mod}.{name}_eq', f'Smtb.Gen.{mod}.{name}_meaning']
+        included.append((label, len(lines)))
+    src = ('import Smtb.Properties.GoTrace\n/-! Regenerated on every run by checks/common.py (kernel_trace_tie) from the Go recorder\'s trace of the\ntree under test.  Do not edit. -/\n'
+           'set_option maxRecDepth 1000000\n'
+           f'namespace Smtb.Gen.{mod}\nopen Smtb Smtb.TraceSound Smtb.TraceHarness Smtb.Properties.GoTrace\n\n'
+           + '\n'.join(body) + f'\n\nend Smtb.Gen.{mod}\n')
+    gen = os.path.join(LEAN, 'Smtb', 'Gen', mod + '.lean')
+    if not os.path.exists(gen) or open(gen).read() != src:
+        open(gen, 'w').write(src)
+    aud = os.path.join(LEAN, 'Smtb', 'Gen', mod + 'Audit.lean')
+    asrc = f'import Smtb.Gen.{mod}\n' + '\n'.join(f'#print axioms {n}' for n in audit_names) + '\n'
+    if not os.path.exists(aud) or open(aud).read() != asrc:
+        open(aud, 'w').write(asrc)
+    ctx.extra.setdefault('kernel_trace_tie', {})[family] = {'included': included, 'skipped': skipped}
+    if not included:
+        return []
+    try:
+        lake_build(['Smtb.Properties.GoTrace'])
+        audit(ctx, 'Smtb/Properties/GoTrace.lean', ['Smtb.Properties.GoTrace.' + t for t in (
+            'insertion_circuit_meaning', 'deletion_circuit_meaning', 'insertionProof_meaning', 'deletionProof_meaning', 'toReducedBigEndian_meaning')])
+        _built.pop(('lake', (f'Smtb.Gen.{mod}',)), None)
+        lake_build([f'Smtb.Gen.{mod}'])
+        audit(ctx, f'Smtb/Gen/{mod}Audit.lean', audit_names)
+    except TieBroken as t:
+        for label, n in included:
+            ctx.oblige(f'T-trace-kernel {label}', False, t.detail[-400:])
+        return [{'target': f'T-trace-kernel {family}', 'detail': t.detail[-1500:]}]
+    for label, n in included:
+        ctx.oblige(f'T-trace-kernel {label}', True, f'{n} recorded lines: equality with the model trace decided by the kernel; meaning theorem instantiated at the regenerated term')
+    return []
+
+
 # ---------------------------------------------------------------- T-corr-gates (validation of the gate table)
 
 def gates_tie(ctx):
